@@ -3,6 +3,8 @@
 mod alloc;
 mod auth;
 mod builder;
+mod c19;
+mod c20;
 mod cborx;
 mod cc;
 mod schemax;
@@ -25,6 +27,8 @@ fn main() {
     let code = match args[1].as_str() {
         "auth-replay" => auth::main(rest),
         "envelope-replay" => envelope::main(rest),
+        "c19-replay" => c19::main(rest),
+        "c20-replay" => c20::main(rest),
         "builder-replay" => builder::main(rest),
         "updkeys-replay" => updkeys::main(rest),
         "wire-replay" => wire::main(rest),
